@@ -10,6 +10,7 @@ import DrummerVerif.Lemmas.C05S
 import DrummerVerif.Lemmas.C01T
 import DrummerVerif.Lemmas.Quiet
 import DrummerVerif.Lemmas.C01H
+import DrummerVerif.Lemmas.C01E
 /-!
 # C01 — self-healing: the control loop restores every shard after faults stop (PARTIAL: safety invariants and per-round progress lemmas; the convergence bound is decided by the correspondence run, see DESIGN.md)
 
@@ -487,6 +488,55 @@ theorem one_round_heals_the_detected_member :
                                       ∀ c' ∈ l4.db.image.shards, c'.shardId = c.shardId →
                                         ∀ x ∈ c'.replicas, x.replicaId = m.replicaId → x.tick = l2.db.tick :=
   @_root_.Drummer.one_round_heals_the_detected_member
+
+/-! ### healed again - the loop closed for the simplest fault
+
+From a settled state whose only anomaly is one member classified failed on a NodeHost that is back with its data (the state
+`crashed_member_is_detected_in_a_quiet_run` arrives at), the round is exactly one restore request
+(`round_is_exactly_one_restore_request`), and after the NodeHost's report, its execution and its next report the fleet is
+settled and EVERY member of every group is running (`crashed_member_is_healed_again`) - from where
+`healed_fleet_stays_healed` takes over. Kernel-evaluated instance: `Props/WitnessTimeline.healedAgain`. -/
+
+theorem round_is_exactly_one_restore_request :
+    ∀ (d : DB), UniqueShards d.image → ∀ (cx : Ctx), CtxOnce d cx →
+      ∀ (draws rest : List Nat) (rs : List Request), maintain cx draws = SRes.ok rs rest →
+        (∀ c ∈ d.image.shards, Shard.IdsOK c) → d.image.toKill = [] →
+          ∀ (c : Shard), c ∈ d.image.shards →
+            ∀ (m : Replica), Shard.failedReplicas c d.tick = [m] → Shard.toStart c d.tick = [] →
+              Shard.available c d.tick = true →
+                (∀ c' ∈ d.image.shards, c' ≠ c → Shard.failedReplicas c' d.tick = [] ∧ Shard.toStart c' d.tick = []) →
+                  ∀ (dd : ShardDef), dd ∈ d.shards → dd.shardId = c.shardId →
+                    ∀ (spec : HostSpec), hostFind? d.hosts m.address = some spec →
+                      HostSpec.available spec d.tick = true → HostSpec.hasLog spec c.shardId m.replicaId = true →
+                        ∃ app, rs = [createReq m c app false true] ∧ rest = draws :=
+  @_root_.Drummer.round_is_one_restore
+
+theorem crashed_member_is_healed_again :
+    ∀ (l : Loop), Loop.Settled l → UniqueShards l.db.image →
+      ∀ (cx : Ctx), CtxOnce l.db cx → ∀ (draws rest : List Nat) (rs : List Request), maintain cx draws = SRes.ok rs rest →
+        ∀ (db' : DB) (n : Nat), DB.applyRequests l.db rs = Outcome.ok (db', n) →
+          (∀ c ∈ l.db.image.shards, Shard.IdsOK c) →
+            ∀ (c : Shard), c ∈ l.db.image.shards →
+              ∀ (m : Replica), Shard.failedReplicas c l.db.tick = [m] → Shard.toStart c l.db.tick = [] →
+                Shard.available c l.db.tick = true →
+                  (∀ c' ∈ l.db.image.shards, c' ≠ c → Shard.failedReplicas c' l.db.tick = [] ∧ Shard.toStart c' l.db.tick = []) →
+                    ∀ (dd : ShardDef), dd ∈ l.db.shards → dd.shardId = c.shardId →
+                      ∀ (spec : HostSpec), hostFind? l.db.hosts m.address = some spec →
+                        HostSpec.available spec l.db.tick = true → HostSpec.hasLog spec c.shardId m.replicaId = true →
+                          ∀ (h : Host), Loop.host? l m.address = some h → h.up = true → Host.run? h c.shardId = none →
+                            ∀ (g : Group), Loop.group? l c.shardId = some g → g.hist ≠ [] →
+                              Host.dataGet h c.shardId m.replicaId = some ((g.hist.length : Int) - 1) →
+                                (∀ g' ∈ l.groups, ∀ p ∈ (Group.cur g').members,
+                                  (g'.shard = c.shardId ∧ p = (m.replicaId, m.address)) ∨
+                                  (p.2 ≠ m.address ∧ ∃ h', Loop.host? l p.2 = some h' ∧ h'.up = true ∧
+                                    ∃ rep, Host.run? h' g'.shard = some rep ∧ rep.id = p.1)) →
+                                  ∀ (l2 : Loop) (k : Nat),
+                                    Loop.report { db := db', hosts := l.hosts, groups := l.groups, nextVer := l.nextVer, regions := l.regions }
+                                        m.address false = Outcome.ok (l2, k) →
+                                      ∀ (lost : Bool) (l4 : Loop) (k4 : Nat),
+                                        Loop.report (Loop.execute l2 m.address) m.address lost = Outcome.ok (l4, k4) →
+                                          Loop.Settled l4 ∧ Loop.AllRunning l4 :=
+  @_root_.Drummer.crashed_member_is_healed_again
 
 end C01
 end Drummer
